@@ -183,7 +183,8 @@ func foreignFilter(f *model.FilterType) bool {
 			continue
 		}
 		switch v.Type().Field(i).Name {
-		case "FilterId", "CmdControl", "LoadControlLimitConstraintsListDataSelectors", "LoadControlLimitConstraintsDataElements":
+		case "FilterId", "CmdControl", "LoadControlLimitConstraintsListDataSelectors", "LoadControlLimitConstraintsDataElements",
+			"MeasurementListDataSelectors", "MeasurementDataElements": // the two foreign fields the model knows (f_fsel, f_felems)
 		default:
 			return true
 		}
@@ -368,6 +369,8 @@ func abstractPayload(payload []byte) hx.Zs {
 			e.n(1)
 			e.b(el.LimitId != nil)
 		}
+		e.b(f.MeasurementListDataSelectors != nil)
+		e.b(f.MeasurementDataElements != nil)
 	}
 	name, ok := firstPayload(&c)
 	if !ok {
